@@ -181,93 +181,6 @@ def gen(rng, tier):
     return out
 
 # ---------------------------------------------------------------- matchers for known findings
-# a case: {"sx": case text, "kind": verdict kind, "fields": [message, ...], "obs": ..., "meta": ...}
-
-def _case(case):
-    try:
-        a = alist(parse_sexp(case["sx"]))
-        t = sx_to_tree(a["tree"])
-        return a, t
-    except Exception:
-        return None, None
-
-def _msg(case):
-    f = case.get("fields") or []
-    return " ".join(str(x) for x in f)
-
-def _lens(t):
-    return [e["len"] for e, _ in all_edges(t)]
-
-def _sides(t):
-    """{frozenset(side): merged length or None} for every branch, both sides as keys; branches defining the same
-    bipartition (the two root branches of a rooted tree) are merged: sum of the present lengths, None if none is present"""
-    allv = frozenset(leaves(t))
-    m = {}
-    for e, c in all_edges(t):
-        s = frozenset(leaves(c))
-        for k in (s, allv - s):
-            if k and k != allv:
-                if k not in m:
-                    m[k] = e["len"]
-                elif e["len"] is not None:
-                    m[k] = (m[k] or 0) + e["len"]
-    return m
-
-def _obs_tree(case):
-    try:
-        o = alist(parse_sexp(case["obs"]))
-        return sx_to_tree(o["tree"])
-    except Exception:
-        return None
-
-def _present(a, t):
-    L = set(leaves(t))
-    return frozenset(x for x in a.get("names", []) if x in L)
-
-def m_midpoint_allzero(case):
-    a, t = _case(case)
-    return bool(a) and a.get("op") == "midpoint" and "panic" in _msg(case) and all(l == 0 for l in _lens(t))
-
-def m_midpoint_zero_far_end(case):
-    a, t = _case(case)
-    if not a or a.get("op") != "midpoint":
-        return False
-    ls = _lens(t)
-    return any(l == 0 for l in ls) and not all(l == 0 for l in ls) and all(l is not None for l in ls) and \
-        ("halfway" in _msg(case) or "path length changed" in _msg(case) or "split length changed" in _msg(case))
-
-def m_outgroup_zero_cut(case):
-    """the branch that was cut had length 0 and both halves come back without a length"""
-    a, t = _case(case)
-    if not a or a.get("op") != "outgroup" or a.get("remove") != "F":
-        return False
-    g = _obs_tree(case)
-    if g is None or len(kids(g)) != 2 or any(e["len"] is not None for e, _ in kids(g)):
-        return False
-    side = frozenset(leaves(kids(g)[0][1]))
-    allv = frozenset(leaves(t))
-    zero = any(e["len"] == 0 and frozenset(leaves(c)) in (side, allv - side) for e, c in all_edges(t))
-    return (_sides(t).get(side, 1) == 0 or zero) and \
-        ("split length changed" in _msg(case) or "equal halves" in _msg(case))
-
-def m_outgroup_remove_nonmono(case):
-    a, t = _case(case)
-    if not a or a.get("op") != "outgroup" or a.get("remove") != "T" or a.get("strict") != "F":
-        return False
-    P = _present(a, t)
-    return bool(P) and P not in _sides(t) and "old tips minus the outgroup" in _msg(case)
-
-def m_outgroup_nonstrict_refused(case):
-    a, t = _case(case)
-    if not a or a.get("op") != "outgroup" or a.get("strict") != "F":
-        return False
-    P = _present(a, t)
-    return bool(P) and P not in _sides(t) and "refused in non-strict mode" in _msg(case)
-
-MATCHERS = {
-    "C05-midpoint-all-zero-panic": m_midpoint_allzero,
-    "C05-midpoint-zero-length-far-end": m_midpoint_zero_far_end,
-    "C05-outgroup-zero-length-cut": m_outgroup_zero_cut,
-    "C05-outgroup-remove-nonmonophyletic": m_outgroup_remove_nonmono,
-    "C05-outgroup-nonstrict-multifurcation-refused": m_outgroup_nonstrict_refused,
-}
+# (none: the three defects found here -- zero-length cut branch losing length and support, midpoint panic on an
+# all-zero tree, midpoint misplaced when the longest path ended with zero-length branches -- were fixed in /repo)
+MATCHERS = {}
